@@ -39,6 +39,7 @@ ASSUMPTIONS = ["digits in numeric positions are ASCII; ids, counts and multiplic
                "generated names and metadata contain no line-boundary character, no leading/trailing whitespace and "
                "no lone surrogate (the quantifier's single-line text)"]
 TIMEOUT_S = 60.0
+COVER_FILES = ["instances/preflibinstance/categorical.py", "instances/preflibinstance/instance.py"]
 CHUNK = 25
 
 WORK = os.path.join(oracle.VERIF, ".work")
@@ -746,7 +747,8 @@ def dirty_content(rng):
     if rng.random() < 0.25:
         lines = ["  " + l + " \t" if rng.random() < 0.5 else l for l in lines]
     ballots = ["1: 1, 2", "2: {1, 2}, {}", "1:1,2", "3: {}, {}", "1: {1,2},{}", "4: 2, 1", "1: 1, 2", "10: {}, 3",
-               "2: {1 , 2} , { }", "1:", "1: {,}", "007: 1"]
+               "2: {1 , 2} , { }", "1:", "1: {,}", "007: 1", "1\t: 1\t,2", "2 :{1 ,\t2}, {\t}", "3:\u00a01, 2",
+               "\u30001 : 2,{ } ", "1: {1, 2}, 3}", "1: {{1, 2}, 3", "1: 1;2", "2: {1 2}, 3"]
     body = [rng.choice(ballots) for _ in range(rng.randint(0, 7))]
     r = rng.random()
     if r < 0.08:
@@ -791,6 +793,8 @@ def generate(tier, seed):
                             insts.append((simple_instance([(b1, m1), (b2, m2)], k, [1, 2]), {"exh": 1}))
     for p in corpus_like():
         insts.append((p, {"hand": 1}))
+    # outside the quantifier, accepted by the code: a ballot with zero categories ("1: " is written and read back)
+    insts.append((mk_payload([([], 3)], 0, [], [(1, "a")], {}), {"hand": 1}))
     # --- random ---
     for _ in range(700 if quick else 12000):
         insts.append((rand_instance(rng), {}))
